@@ -191,6 +191,14 @@ def create_app(config: JsonObject | None = None,
         db.session.rollback()
         return make_response('Conflict with another request', 409)
 
+    @app.errorhandler(FileNotFoundError)
+    def media_file_missing(err: FileNotFoundError) -> Response:
+        """
+        The database describes a media file that is not in the blob folder
+        """
+        logging.warning('File not found: %s', err)
+        return make_response('File not found', 404)
+
     with app.app_context():
         create_all_tables()
         if create_default_user:
